@@ -83,6 +83,12 @@ var hostClasses = [][]byte{
 	[]byte("2e-1"), []byte(".5"), []byte("1e999"), []byte("18446744073709551616"), []byte("-1.0e0"), []byte("nan"), []byte("Infinity"),
 }
 
+func init() {
+	for _, h := range hostNameTexts {
+		hostClasses = append(hostClasses, []byte(h))
+	}
+}
+
 func genMac(rng *rand.Rand, idx int) []byte {
 	// hlen: mostly 6, but every length 0..16 is hit
 	hlen := 6
